@@ -206,9 +206,9 @@ where
         let dfdx = f1(x);
         let dx = -f0(x) / dfdx;
 
-        if (dx < T::epsilon())
+        if (dx < T::epsilon() * x)
             || (T::abs(dx / x) < T::sqrt(T::epsilon()))
-            || (T::abs(dfdx) < T::epsilon())
+            || (T::abs(dfdx * x) < T::epsilon())
         {
             break;
         }
